@@ -306,7 +306,7 @@ Definition sub_byset (fq this : Z) (interval start : Z) (given : option (list Z)
     if fq =? this then
       match construct_byset interval start l base with
       | None => Err EValue
-      | Some c => Ok (Some (sortu c), OVals (sortu c))
+      | Some c => Ok (Some (sortu c), OVals (sortu l))      (* recorded as given (5b59678) *)
       end
     else Ok (Some (sortu l), OVals (sortu l))
   end.
